@@ -8,6 +8,7 @@ import time
 import traceback
 
 from . import common
+from . import source_pins
 from . import textnoise
 from .common import Result, Rng, log
 
@@ -145,6 +146,19 @@ def main(argv=None):
     try:
         lean_stage(prop, ctx, res)
         prop.run(ctx, res)
+        # change-directed escalation (harness/source_pins.py): the correspondence was validated against the pinned
+        # source; when the library's source differs from it and the every-day sample found nothing, run one round of the
+        # failing-input search as well.  A drift alone is never a verdict.
+        drift = source_pins.drift()
+        res.extra["source_drift"] = drift[:40]
+        if drift and not res.failures and not res.broken and getattr(prop, "search", None) and not os.environ.get("VERIF_NO_ESCALATION"):
+            ctx.search_rounds = 1
+            t0 = time.time()
+            ctx.search_deadline = t0 + (150 if ctx.tier == "quick" else 600)  # no further stream is started after this
+            prop.search(ctx, res, [])
+            ctx.search_rounds = 3
+            ctx.search_deadline = None
+            res.extra["escalated_search_s"] = round(time.time() - t0, 1)
     except Exception as e:
         tb = traceback.format_exc()
         log(tb)
